@@ -187,6 +187,11 @@ func (g *Gateway) handleLegacyProtocol(w http.ResponseWriter, r *http.Request, t
 
 	id := identity.FromRequestCtx(r)
 	if r.Method == MethodRDGOUT {
+		if t.transportOut != nil {
+			log.Printf("Session %s already has an RDG OUT data channel", t.RDGId)
+			http.Error(w, "connection id already in use", http.StatusConflict)
+			return
+		}
 		out, err := transport.NewLegacy(w)
 		if err != nil {
 			log.Printf("cannot hijack connection to support RDG OUT data channel: %s", err)
@@ -195,15 +200,24 @@ func (g *Gateway) handleLegacyProtocol(w http.ResponseWriter, r *http.Request, t
 		log.Printf("Opening RDGOUT for client %s", id.GetAttribute(identity.AttrClientIp))
 
 		t.transportOut = out
+		// the tunnel has to be known before the client is told to continue
+		// with the RDG IN data channel
+		c.Set(t.RDGId, t, cache.DefaultExpiration)
 		verifPoint("legacy.attach")
 		out.SendAccept(true)
-
-		c.Set(t.RDGId, t, cache.DefaultExpiration)
 	} else if r.Method == MethodRDGIN {
 		defer verifEvent("handler.end", t, "transport", "legacy-in")
 		verifEvent("handler.begin", t, "transport", "legacy-in")
 		legacyConnections.Inc()
 		defer legacyConnections.Dec()
+
+		// responses are written to the RDG OUT data channel, which has to be
+		// established first
+		if t.transportOut == nil {
+			log.Printf("Session %s has no RDG OUT data channel", t.RDGId)
+			http.Error(w, "no RDG OUT data channel for this connection id", http.StatusBadRequest)
+			return
+		}
 
 		in, err := transport.NewLegacy(w)
 		if err != nil {
